@@ -1,4 +1,6 @@
 """C04 — explicit bound(...) follows the documented nine-level priority."""
+import re
+
 from .. import run as R
 from ..boundgen import BoundGen, CMP, STRUCT_ONLY, FORMS, expected_where, where_text, tpath
 from ..check import Prop
@@ -10,9 +12,17 @@ def headers(parts):
     return [(p[0], p[1]) if p[0] == 'IMPL' else p for p in parts if p[0] in ('IMPL', 'ERR', 'DUMP')]
 
 
+def norm_hrtb(text):
+    """the name of the lifetime bound by `for<..>` is the generator's business: canonicalise it"""
+    out = text
+    for m in set(re.findall(r"for < ' (\w+) >", text)):
+        out = re.sub(r"' %s\b" % re.escape(m), "' _h", out)
+    return out
+
+
 def where_of(hdr):
     i = hdr.find(' where ')
-    return hdr[i + 1:] if i >= 0 else ''
+    return norm_hrtb(hdr[i + 1:]) if i >= 0 else ''
 
 
 class C04(Prop):
@@ -73,7 +83,7 @@ class C04(Prop):
                 continue
             bad = None
             for p, form in zip(mine, forms):
-                want = where_text(tr, kind, form, ts, ps)
+                want = norm_hrtb(where_text(tr, kind, form, ts, ps))
                 got = where_of(p[1])
                 if want != got:
                     bad = (want, got)
